@@ -1,0 +1,26 @@
+//go:build verif
+
+// Machine-checked contracts for govc (see /verif/DESIGN.md). Comments only;
+// compiled only with the build tag "verif".
+
+package authstrategy
+
+// C19: the algorithm mappings panic for key sizes they do not know. Callers must have established
+// that the key is supported (keystore.Entry.CheckSigningSupport does).
+//@ func getRSAAlgorithm
+//@   props C19
+//@   safety nonil
+//@   pure
+//@   requires keySize == 2048 || keySize == 3072 || keySize == 4096
+
+//@ func getECDSAAlgorithm
+//@   props C19
+//@   safety nonil
+//@   pure
+//@   requires keySize == 256 || keySize == 384 || keySize == 512 || keySize == 521
+
+//@ func toHTTPSigKey
+//@   props C19
+//@   safety nonil
+//@   pure
+//@   requires joseOK(entry.Alg, entry.KeySize)
